@@ -214,3 +214,18 @@ package connlist
 //@   nosafety
 //@   requires ca != nil
 //@   modifies *
+
+// ---------------------------------------------------------------------------------------------
+// {ingress-controller} lines (C05, C16, C10): no line carries an empty connection, and every target the ingress analysis
+// found is examined - whatever the focus value, the other targets or the order in which the map is ranged (no early exit)
+// ---------------------------------------------------------------------------------------------
+//@ fun connNonEmpty(c *connection) bool = c.allConnections || len(c.protocolsAndPorts) > 0
+//@ func (*ConnlistAnalyzer).getIngressAllowedConnections
+//@   nosafety
+//@   requires ca != nil && pe != nil && ia != nil
+//@   modifies *
+//@   ensures [C05] nonempty: res1 == nil ==> (forall k int :: {res0[k]} (0 <= k && k < len(res0)) ==> (dyntype(res0[k], *connection) && unwrap(res0[k], *connection) != nil && connNonEmpty(unwrap(res0[k], *connection))))
+//@   before return 4:
+//@     assert [C16,C10,C08] visited: ingressConns != nil ==> (forall key string :: {key in ingressConns} key in ingressConns ==> seen(key))
+//@   loop 1:
+//@     invariant nonempty: forall k int :: {res[k]} (0 <= k && k < len(res)) ==> (dyntype(res[k], *connection) && unwrap(res[k], *connection) != nil && allocated(unwrap(res[k], *connection)) && connNonEmpty(unwrap(res[k], *connection)))
